@@ -543,5 +543,63 @@ def run(ctx):
                 elif here[k] != ks['0']:
                     ctx.report('property', f'key of a file computed in this process {here[k][:12]}.. differs from a fresh process '
                                f'{ks["0"][:12]}..', {'dataset': label, 'kind': 'object_state', 'edit': 'process'})
+        # (5) an Arakawa C convention made explicitly: the coordinate variables carry other names, told to the convention through
+        # the documented coordinate_names= option.  The geometry variables are the ones named, and the key follows them
+        for trial in range(2 if quick else 10):
+            d = gen.any_dataset(rng, 'shoc_standard', invalid=False)
+            gen.add_data_vars(rng, d.ds, {'face': d.spec['kinds']['face']}, names_prefix='h', n_extra_max=1)
+            conv = d.ds.ems
+            names8 = {k.value: (str(a), str(b)) for k, (a, b) in conv.coordinate_names.items()}
+            rename = {nm: f'geo_{nm}' for pair in names8.values() for nm in pair}
+            order = list(names8)
+            rng.shuffle(order)
+            given = {k: (rename[names8[k][0]], rename[names8[k][1]]) for k in order}
+            cls = type(conv) if trial % 2 == 0 else type(conv).__mro__[1]
+            renamed = d.ds.copy(deep=True).rename(rename)
+
+            def bound(x, cls=cls, given=given):
+                y = x.copy(deep=True)
+                with warnings.catch_warnings():
+                    warnings.simplefilter('ignore')
+                    cls(y, coordinate_names=dict(given)).bind()
+                return y
+            case = {'dataset': d.spec['label'], 'convention': f'{cls.__name__}(dataset, coordinate_names=...)', 'coordinate_names': given}
+            ctx.case((d.spec['label'], 'coordinate_names', trial), True)
+            ctx.count(f'explicit coordinate_names:{cls.__name__}')
+            b0 = attempt(lambda: bound(renamed))
+            if b0[0] != 'ok':
+                ctx.report('property', f'{cls.__name__}(dataset, coordinate_names=...) failed: {b0[1]}', case)
+                continue
+            inv = attempt(lambda: {str(x) for x in b0[1].ems.get_all_geometry_names()})
+            if inv[0] != 'ok' or inv[1] != set(rename.values()):
+                ctx.report('property', f'geometry inventory {sorted(inv[1]) if inv[0] == "ok" else inv[1]}, the geometry variables named to '
+                           f'the convention are {sorted(rename.values())}', case)
+                continue
+            k0 = attempt(lambda: key_of(b0[1]))
+            bad = None
+            for nm in sorted(rename.values()):
+                e = renamed.copy(deep=True)
+                vals = numpy.array(e[nm].values, copy=True)
+                finite = [k_ for k_, x_ in enumerate(vals.reshape(-1)) if x_ == x_]       # (a missing coordinate stays missing)
+                if not finite:
+                    continue
+                vals.reshape(-1)[rng.choice(finite)] += 0.5
+                e[nm] = (e[nm].dims, vals, e[nm].attrs)
+                k1 = attempt(lambda: key_of(bound(e)))
+                if k0[0] != 'ok' or k1[0] != 'ok':
+                    bad = f'make_cache_key failed: {k0} {k1}'
+                elif k1[1] == k0[1]:
+                    bad = f'changing one value of the geometry variable {nm} leaves the key unchanged'
+                if bad:
+                    break
+            if not bad:
+                e = renamed.copy(deep=True)
+                e['extra_data'] = e[next(iter(rename.values()))] * 0 + 7
+                e.attrs['title'] = 'another title'
+                k2 = attempt(lambda: key_of(bound(e)))
+                if k2[0] != 'ok' or k2[1] != k0[1]:
+                    bad = 'adding a data variable and a global attribute changes the key'
+            if bad:
+                ctx.report('property', bad, case)
     finally:
         shutil.rmtree(tmp, ignore_errors=True)
